@@ -267,6 +267,15 @@ pub fn big_block(base: &SignedRegister, n: u32) -> Vec<RegisterOp> {
     block[..n as usize].to_vec()
 }
 
+/// An op genuinely written and signed by `signer` for register `from`, with its address field rewritten to `to`'s
+/// address (what an adversarial peer can put on the wire: same crdt op, source and signature).
+pub fn readdressed_register_op(from: &SignedRegister, to: &SignedRegister, n: u32, signer: &bls::SecretKey) -> RegisterOp {
+    let op = register_op(from, n, signer);
+    let mut v = serde_json::to_value(&op).expect("op to json");
+    v["address"] = serde_json::to_value(to.address()).expect("address to json");
+    serde_json::from_value(v).expect("op from json")
+}
+
 pub fn register_with_ops(base: &SignedRegister, ops: &[RegisterOp]) -> SignedRegister {
     SignedRegister::new(
         base.base_register().clone(),
@@ -311,6 +320,8 @@ pub enum QuoteSig {
     Forged,
     /// signed by another node's key while claiming this one
     OtherKey,
+    /// a self-consistent quote of ANOTHER node (its public key, its signature), listed under this payee
+    OtherNodesQuote,
 }
 
 /// A quote by node `kp` for `content`, `age_secs` old (negative = dated in the future).
@@ -338,7 +349,7 @@ pub fn quote(
         network_size: Some(100),
     };
     let bytes = PaymentQuote::bytes_for_signing(XorName(content), timestamp, &metrics, &rewards);
-    let signer = if sig == QuoteSig::OtherKey { other } else { kp };
+    let signer = if sig == QuoteSig::OtherKey || sig == QuoteSig::OtherNodesQuote { other } else { kp };
     let mut signature = signer.sign(&bytes).expect("sign quote");
     if sig == QuoteSig::Forged {
         signature[0] ^= 0x55;
@@ -348,7 +359,7 @@ pub fn quote(
         timestamp,
         quoting_metrics: metrics,
         rewards_address: rewards,
-        pub_key: kp.public().encode_protobuf(),
+        pub_key: if sig == QuoteSig::OtherNodesQuote { other.public().encode_protobuf() } else { kp.public().encode_protobuf() },
         signature,
     }
 }
